@@ -152,6 +152,9 @@ def directed(rng, probes=False):
         # an array without members from the peer: nothing to deliver, nothing wrong with the connection; what is outstanding stays so
         add('peer-empty-array-%d' % v, {'callback': e}, [op('o1'), op('o2', 'batch', [False, True]), D, peer(arr=True), D, peer(R(1, e)), D, peer(arr=True), peer(R(2), R(3)), D,
                                                           op('o3'), D, peer(arr=True), D, peer(R(4)), D])
+        # an OnStop hook that uses its client (IsStopped, Notify): whoever stops the client - the reader too - runs it where that is possible
+        add('hook-touches-client-%d' % v, {'hooktouch': True, 'callback': e, 'recvUnblocks': bool(v == 0)}, [op('o1'), op('o2', 'batch', [False, True]), D,
+                                                                                                    [dict(a='close'), dict(a='peerclose'), dict(a='recverr')][v], D, op('o3'), D, dict(a='close'), D])
         add('close-twice-%d' % v, {'callback': True}, [peer(('call', 7, False)), D, dict(a='recverr'), D, dict(a='close'), D, dict(a='cbret', id='7'), D])
         add('reply-after-close-%d' % v, {}, [op('o1'), D, dict(a='close'), peer(R(1)), D])
     return out
